@@ -174,10 +174,12 @@ def main():
     by("lbl_pp_challenge", soft("lbl_pp_challenge", challenge_label), "ppoprf DLEQ challenge label (prover and verifier)")
     by("lbl_pp_composite", soft("lbl_pp_composite", lambda: one(r'hash_to_scalar\(&composite_transcript, "([^"]*)"\)', pp, "composite label")), "ppoprf composite label")
     by("lbl_pp_seed", soft("lbl_pp_seed", lambda: one(r'strobe_hash\(&seed_transcript, "([^"]*)", &mut seed\);', pp, "seed label")), "ppoprf seed label")
-    m = re.search(r'format!\("\{\}-\{\}-\{\}", "([^"]*)", (0x[0-9a-fA-F]+|\d+), "([^"]*)"\)', pp)
-    if not m:
-        raise Missing("ppoprf context string")
-    by("pp_context_string", "%s-%d-%s" % (m.group(1), int(m.group(2), 0), m.group(3)), "ppoprf context string")
+    def context_string():
+        m = re.search(r'format!\("\{\}-\{\}-\{\}", "([^"]*)", (0x[0-9a-fA-F]+|\d+), "([^"]*)"\)', pp)
+        if not m:
+            raise Missing("ppoprf context string")
+        return "%s-%d-%s" % (m.group(1), int(m.group(2), 0), m.group(3))
+    by("pp_context_string", soft("pp_context_string", context_string), "ppoprf context string")
 
     # ---- wasm ----
     try:
